@@ -352,6 +352,11 @@ func (c03) Exec(seed int64, i int, tier string) Record {
 		}
 		return rec
 	}
+	if i%20 == 9 {
+		// classes overlap-probe / kth-fault-probe (b15_overlap.go): no panic, no hang, result-or-error also when one parsed
+		// function is evaluated on two documents at overlapping times and after a user function failed / panicked once
+		return b15Case("C03", r)
+	}
 	sentinel := i%20 == 11
 	if sentinel {
 		rc.sentinel = c03Sentinels[r.Intn(len(c03Sentinels))]
